@@ -157,6 +157,10 @@ pub fn run(args: &Args) {
                     let gap = *rng.pick(&[0usize, 0, 1, 3, 7, 28]);
                     random_block(&l, &mut rng, p, g, w, gap)
                 }).collect();
+                // every fourth message: the declared size (lrtup) of each volume / elevation / radial block is its real size plus the
+                // gap that follows it, i.e. it names exactly where the next block starts (a block "padded out to its declared size")
+                let mut blocks = blocks;
+                if k % 4 == 1 { for i in 0..blocks.len() { if !is_moment(&blocks[i].p) { let next_gap = blocks.get(i + 1).map(|b| b.gap).unwrap_or(0); let sz = l.get(block_layout(&blocks[i].p)).size() + next_gap; blocks[i].rec.insert("lrtup".into(), (sz as u16).to_be_bytes().to_vec()); } } }
                 let mut ptrs: Vec<usize> = (0..blocks.len()).collect();
                 if rng.chance(1, 2) { for i in (1..ptrs.len()).rev() { let j = rng.below(i as u64 + 1) as usize; ptrs.swap(i, j); } }
                 let hdr = l.get("drd_header").random(&mut rng);
